@@ -52,18 +52,84 @@ func cancelCorpus(c *Ctx) []*prog.Program {
 func C07(c *Ctx) int {
 	fs, _ := LoadFindings()
 	ps := cancelCorpus(c)
+	points, distinct, sample := c.cancelRound(fs, "cancel", ps, JobOpts{Mode: "cancel", Seed: c.Seed, TMs: 3000, Perturb: 9})
+	// late flows: several tokens on their way to ONE node (merged / burst arrival at an exclusive
+	// gateway, a parallel join, an activity) while every flow is late in taking the action it was
+	// handed (all passages of flow.action held): the cancel finds node goroutines that exit while
+	// flows still owe them messages (probe reports, second requests) -- a bounded inbox nobody
+	// drains any more must not block a flow for ever
+	{
+		var late []*prog.Program
+		addL := func(p *prog.Program, tag string) {
+			p.Tags = append(p.Tags, "corpus:"+tag, "late-flows")
+			late = append(late, p)
+		}
+		gen.MergedArrival = true
+		addL(gen.GatewayTable("xor", 1, -1, 2, -1), "xor-merged2")
+		addL(gen.GatewayTable("xor", 2, 0, 3, -1), "xor-merged3")
+		gen.BurstArrival = true
+		addL(gen.GatewayTable("xor", 1, 1, 4, -1), "xor-burst4")
+		gen.MergedArrival, gen.BurstArrival = false, false
+		addL(gen.ParallelBurst(1, 1, 3), "and-burst")
+		addL(gen.ParallelBurst(1, 1, 5), "and-burst5")
+		addL(funnel("end", 5), "end-burst5")
+		addL(funnel("task", 5), "task-burst5")
+		addL(gen.ParallelBurst(2, 1, 2), "and-burst2")
+		addL(gen.GatewayTable("or", 2, 2, 1, -1), "or")
+		_, d2, _ := c.cancelRound(fs, "cancel-late", late, JobOpts{Mode: "cancel", Seed: c.Seed, TMs: 3000, Perturb: 3, HoldPoints: []string{"flow.action"}})
+		for k := range d2 {
+			distinct["late:"+k] = true
+		}
+		ps = append(ps, late...)
+	}
+	c.Extra["distinct_nontrivial"] = len(distinct)
+	c.Extra["programs"] = len(ps)
+	c.Extra["cancel_points_per_program"] = points
+	if sample != nil {
+		c.Samples = append(c.Samples, sample)
+	}
+	return c.Finish("fault_enumeration", "corpus covering every node kind and blocking situation (tasks awaiting an answer, parallel / inclusive joins, sub-processes, listening catch events, event-based gateway, boundary listeners, random block programs); for every program the context is cancelled after k traces for every k (quick: at most 24 evenly spread k), with requests answered and awaited events delivered at once; after the cancel: WaitUntilComplete latency, tracer termination, subscriber closure, context of late requests, census of the goroutines the instance started (pprof label); the run up to the cancel and the post-cancel observations are validated by TokenGameTrace; a second corpus (several tokens on their way to one node) is cancelled at every point with every flow late in taking its action; distinct = (program, cancel point) pairs", !c.Quick(), fs)
+}
+
+// funnel: k tokens created by one parallel fork reach, through a merging exclusive gateway, a
+// single node of the given kind at the same time.
+func funnel(kind string, k int) *prog.Program {
+	b := prog.NewBuilder(fmt.Sprintf("funnel_%s_%d", kind, k))
+	s := b.AddNode("start", "")
+	f := b.AddNode("and", "")
+	x := b.AddNode("xor", "")
+	b.Connect(s, f, prog.Cond{})
+	for i := 0; i < k; i++ {
+		b.Connect(f, x, prog.Cond{})
+	}
+	e := b.AddNode("end", "")
+	if kind == "end" {
+		b.Connect(x, e, prog.Cond{})
+	} else {
+		t := b.AddNode(kind, "")
+		b.Connect(x, t, prog.Cond{})
+		b.Connect(t, e, prog.Cond{})
+	}
+	b.P.Tags = append(b.P.Tags, "funnel", kind)
+	return b.Done()
+}
+
+// cancelRound: reference runs, then one run per (program, cancel point), validated by TokenGameTrace.
+func (c *Ctx) cancelRound(fs []Finding, label string, ps []*prog.Program, opts JobOpts) (map[int]int, map[string]bool, map[string]any) {
+	var sample map[string]any
+	points := map[int]int{}
+	distinct := map[string]bool{}
 	// reference runs: how many traces does each program emit
 	ref := &Job{Programs: ps, Opts: JobOpts{Mode: "cancel", Seed: c.Seed, TMs: 3000}}
 	for i := range ps {
 		ref.Schedules = append(ref.Schedules, drive.Schedule{Prog: i})
 		ref.CancelAt = append(ref.CancelAt, -1)
 	}
-	refRuns, err := ReplayAll(c.sub("cancel-ref"), ref, c.Workers)
+	refRuns, err := ReplayAll(c.sub(label+"-ref"), ref, c.Workers)
 	if err != nil {
 		c.Infraf("reference runs: %v", err)
 	}
-	job := &Job{Programs: ps, Opts: JobOpts{Mode: "cancel", Seed: c.Seed, TMs: 3000, Perturb: 9}}
-	points := map[int]int{}
+	job := &Job{Programs: ps, Opts: opts}
 	for i := range ps {
 		k := 0
 		for _, rec := range refRuns[i] {
@@ -101,7 +167,7 @@ func C07(c *Ctx) int {
 		job.Schedules = append(job.Schedules, drive.Schedule{Prog: i})
 		job.CancelAt = append(job.CancelAt, -1)
 	}
-	runs, err := ReplayAll(c.sub("cancel-runs"), job, c.Workers)
+	runs, err := ReplayAll(c.sub(label+"-runs"), job, c.Workers)
 	if err != nil {
 		c.Infraf("cancel runs: %v", err)
 	}
@@ -110,9 +176,8 @@ func C07(c *Ctx) int {
 	acc, fails, _, err := c.ValidateTrace("TokenGameTrace", ps, runs, drive.FilterTG, progOf, "")
 	if err != nil {
 		c.Infraf("validate: %v", err)
-		return c.Finish("fault_enumeration", "cancel points", false, fs)
+		return points, distinct, sample
 	}
-	distinct := map[string]bool{}
 	var rejected []int
 	for r := range runs {
 		distinct[fmt.Sprintf("%d@%d", progOf(r), job.CancelAt[r])] = true
@@ -139,18 +204,13 @@ func C07(c *Ctx) int {
 			Detail: fmt.Sprintf("cancel after %d traces; rejected at %s; %s", job.CancelAt[r], f.Ev, det)},
 			map[string]any{"program": p, "cancel_at": job.CancelAt[r], "log": runs[r]})
 	}
-	c.Extra["distinct_nontrivial"] = len(distinct)
-	c.Extra["programs"] = len(ps)
-	c.Extra["cancel_points_per_program"] = points
-	if len(runs) > 0 {
-		for r, log := range runs {
-			if acc[r] && job.CancelAt[r] > 3 {
-				c.Samples = append(c.Samples, map[string]any{"program": ps[progOf(r)].Name, "cancel_after_traces": job.CancelAt[r], "observed": summarise(drive.FilterTG(ps[progOf(r)], log))})
-				break
-			}
+	for r, log := range runs {
+		if acc[r] && job.CancelAt[r] > 3 {
+			sample = map[string]any{"program": ps[progOf(r)].Name, "cancel_after_traces": job.CancelAt[r], "observed": summarise(drive.FilterTG(ps[progOf(r)], log))}
+			break
 		}
 	}
-	return c.Finish("fault_enumeration", "corpus covering every node kind and blocking situation (tasks awaiting an answer, parallel / inclusive joins, sub-processes, listening catch events, event-based gateway, boundary listeners, random block programs); for every program the context is cancelled after k traces for every k (quick: at most 24 evenly spread k), with requests answered and awaited events delivered at once; after the cancel: WaitUntilComplete latency, tracer termination, subscriber closure, context of late requests, census of the goroutines the instance started (pprof label); the run up to the cancel and the post-cancel observations are validated by TokenGameTrace; distinct = (program, cancel point) pairs", !c.Quick(), fs)
+	return points, distinct, sample
 }
 
 // ParkedCancelRound: every program with a task is started, nothing is answered, and once the
